@@ -37,6 +37,10 @@ def configs(tier, prop="C07", equal=False):
             for la, lb in ((1, 2), (2, 2)) if not equal else ((2, 2),):
                 out.append(split.Config(prop, t, la, lb, equal=equal, kernel=2, ka=2, timeout=3600, mem_gb=10))
         out.append(split.Config(prop, "dna", 2, 2, equal=equal, kernel=2, ka=3, timeout=3600, mem_gb=10))
+        if equal:
+            # identical strings need length >= 5 (dna) / >= 3 (protein) before an offset slip in the profile kernel shows (seeded C08_m2)
+            out.append(split.Config(prop, "dna", 5, 5, equal=True, kernel=2, ka=2, timeout=5400, mem_gb=12))
+            out.append(split.Config(prop, "protein", 3, 3, equal=True, kernel=2, ka=2, timeout=5400, mem_gb=12))
         # NOTE: profile LONGER than the sequence is not claimed: do_align never swaps in the sequence-profile case, and there the
         # unchanged kernels return alignments that the tight bracket oracle rejects (native validation: VK_KCOPIES=2 VK_ANYLEN=1
         # tools/c07_native 4 4 -> 897 of 578000 pairs, e.g. 2x CGAA vs CA comes out as C--A); the deficits stay within 2*gpo.
